@@ -1,5 +1,52 @@
 #![feature(allocator_api)]
-// unit `dense_math` : the dense column-major matrix type and its arithmetic (algebra/dense/types.rs, algebra/dense/matrix_math.rs) (C18)
+#![allow(non_snake_case)]
+// unit `dense_math` : the dense column-major matrix type, its views and its arithmetic (C18: scaled vectorisation of PSD blocks, dual completion)
+// (`#![feature(allocator_api)]` only so that the std impls `AsRef<[T]> / AsMut<[T]> for Vec<T, A>` can be named in an assume_specification.)
+//
+// PROVED (real text, unbounded; panic-freedom = every index / overflow / assert! obligation, plus the clause given):
+//   algebra/dense/types.rs (storage instantiated at S = Vec<T>, i.e. `Matrix<T>`): index_linear (r + m*c, inside `data`), data, data_mut,
+//     Index::index and IndexMut::index_mut (entry (r, c); index_mut: exactly that entry can change - the injectivity of (r, c) -> r + m*c is
+//     proved once here, every client reasons entry-wise), col_slice / col_slice_mut (column c = data[m*c .. m*c + m], the other columns
+//     untouched), size; the default methods nrows / ncols / is_square of trait ShapedMatrix (matrix_traits.rs);
+//     the views Adjoint (entry (r, c) = source (c, r)) and Symmetric (entry (r, c) = source (min, max): the lower triangle is never read):
+//     size, index_linear, data, index, checked against the same `DenseMatrix` contract as the matrix itself
+//   algebra/dense/core.rs: Matrix::new, Matrix::zeros
+//   algebra/dense/matrix_math.rs:
+//     svec_to_mat  packed entry tri(col) + row (row <= col) lands in (row, col) AND (col, row), times FRAC_1_SQRT_2 off the diagonal, unscaled
+//                  on it; a square matrix is overwritten completely (sv_val)
+//     mat_to_svec  (generic over the DenseMatrix trait: Matrix, Adjoint, Symmetric) x[tri(col) + row] = M[col, col] resp.
+//                  (M[row, col] + M[col, row]) * FRAC_1_SQRT_2; nothing beyond tri(n) is written (ms_val)
+//     lemma_mat_svec_mat / lemma_svec_mat_svec  (F-real) the two round trips are the identity on symmetric matrices resp. on vectors, under the
+//                  explicit HYPOTHESIS 2 * FRAC_1_SQRT_2^2 == 1 (not an axiom of the prelude)
+//     symmetric_part  both off-diagonal positions get 0.5 * (lower + upper), diagonal untouched, returns self
+//     col_sums, row_sums (sums as the left folds the code performs), col_norms(_no_reset) (max(old, norm_inf of the column)),
+//     row_norms(_no_reset) (running max of |entry| along the row), col_norms_sym(_no_reset) (see D1), quad_form (F-real: y' sym(M) x over the
+//     upper triangle, the lower one is never read), scale, negate, lscale, rscale, lrscale (entry for entry, incl. the zip semantics of
+//     hadamard / enumerate: rows resp. columns beyond the scaling vector are left alone)
+//   solver/chordal/decomp/psd_completion.rs: complete (z -> Z0 = svec_to_mat(z) -> Z1 = psd_complete(Z0) -> z = mat_to_svec(Z1); entries of z beyond
+//     the packed triangle untouched)
+// ASSUMED (hand-written, not verified here):
+//   `AsRef<[T]>::as_ref` / `AsMut<[T]>::as_mut` of Vec are the identity views (std); the borrowed storages `&[T]` / `&mut [T]` of
+//     BorrowedMatrix(Mut) are NOT instantiated (the generic code touches the storage only through these two calls);
+//   trait `DenseMatrix<T>` is a stand-in for `DenseMatrix<T>: ShapedMatrix + Index<(usize, usize), Output = T>` (Verus does not model user Index
+//     impls): `index` is a method of the stand-in, with the contract `*r == at(idx)` for idx inside the shape; rule `tupidx` writes `M[(r, c)]`
+//     as `*M.index((r, c))` / `*M.index_mut((r, c))` (the definition of the operator), rule `selfout` writes `Self::Output` as `F`;
+//   VectorMath kernels sum / norm_inf / scale / negate / hadamard (prelude/vecmath_assumed.rs, proved in unit vecmath), `<[T]>::fill` (std_assumed);
+//   psd_complete: keeps the shape; its effect is the uninterpreted relation `psd_completed` (Cholesky / SVD / gemm are outside the verifier);
+//   F-real axioms (prelude/float_real_axioms.rs) in quad_form and the two round-trip lemmas only.
+// PRECONDITIONS and the call sites:
+//   svec_to_mat / mat_to_svec `square, x.len() >= triangular_number(n)`: psdtrianglecone.rs and psd_completion::complete pass n x n work
+//     matrices and vectors of length triangular_number(n) (by inspection); mat_to_svec(x, &X.sym()) relies on the Symmetric view proved above;
+//   col_sums / row_sums length equalities, quad_form / symmetric_part squareness: the functions assert them themselves (documented panics);
+//   col_norms*: `norms.len() <= ncols` is needed (col_slice asserts col < ncols): the dense variants have no caller in the solver (the
+//     equilibration works on CscMatrix); rscale `r.len() <= ncols`, lrscale `l.len() >= nrows, r.len() >= ncols`: psdtrianglecone.rs passes
+//     vectors of length n for n x n matrices (by inspection).
+// DEFECT CANDIDATE D1: `col_norms_sym_no_reset` feeds the raw entry, not its absolute value, into the running max (`T::max(norms[r], tmp)` with
+//   `tmp = self[(r, c)]`; the CSC twin uses `T::abs`).  For M = [-5] the "symmetric column infinity norm" comes out as max(0, -5) = 0 instead of 5.
+//   The contract below (dsymstep) states what the code computes; with f_abs in it the obligation fails.  No caller in the solver (dead code today).
+// DROPPED: subsref / subsasgn (generic `IntoIterator<Item = &usize> + Copy` arguments with enumerate), set_identity, is_triu, resize, pack_triu,
+//   copy_from_slice, `From<I> for Matrix` (map / collect), Display; psd_completion (outer loop: collect of an iterator of ranges, sub-slice of
+//   variables.z) and psd_complete (LAPACK engines, filter / collect closure); kron.rs, block_concatenate.rs, blas/*.
 use vstd::prelude::*;
 verus! {
 global size_of usize == 8;
@@ -569,6 +616,53 @@ impl<'a> DenseMatrix<F> for Symmetric<'a, MatrixF> {
 //@fn file=src/algebra/dense/types.rs in="Index<(usize, usize)> for Symmetric<'_, DenseStorageMatrix<S, T>>" name=index rules=R1
 //@end
 }
+
+// ------------------------------------------------------------------ constructors (dense/core.rs) and psd_completion::complete
+//@type file=src/algebra/dense/types.rs name=Matrix
+impl DenseStorageMatrix<Vec<F>, F> {
+//@fn file=src/algebra/dense/core.rs in="impl<T> Matrix<T>" name=new rules=R1 ret=res
+//@contract
+    requires
+        // assert!(size.0 * size.1 == data.len()): documented panic otherwise (the product itself must not overflow either)
+        size.0 * size.1 == data@.len(),
+    ensures res.size == size, res.data@ == data@, res.wf(),
+//@end
+//@fn file=src/algebra/dense/core.rs in="impl<T> Matrix<T>" name=zeros rules=R1 ret=res
+//@contract
+    requires size.0 * size.1 <= usize::MAX,
+    ensures res.size == size, res.wf(), forall|k: int| 0 <= k < res.data@.len() ==> #[trigger] res.data@[k] == f_zero(),
+//@end
+}
+//@struct file=src/solver/chordal/sparsity_pattern.rs name=SparsityPattern keep=ordering,orig_index
+// ASSUMED stand-in for psd_complete (dense/blas: Cholesky, SVD, gemm are outside the verifier's reach): keeps the shape; what it does to the
+// entries is the uninterpreted relation `psd_completed`
+pub uninterp spec fn psd_completed(A0: MatrixF, A1: MatrixF, pattern: SparsityPattern) -> bool;
+#[verifier::external_body]
+fn psd_complete(A: &mut MatrixF, pattern: &SparsityPattern)
+    ensures final(A).size == old(A).size, final(A).wf(), psd_completed(*old(A), *final(A), *pattern),
+{ unimplemented!() }
+//@fn file=src/solver/chordal/decomp/psd_completion.rs name=complete rules=R1
+//@contract
+    requires
+        // z is the block of the dual belonging to the PSD cone of order n = |ordering| (psd_completion slices it by the cone's row range)
+        pattern.ordering@.len() < 0x1_0000_0000, old(z)@.len() >= tri(pattern.ordering@.len() as int),
+    ensures
+        final(z)@.len() == old(z)@.len(),
+        // C18 (dual completion, index level): z is unpacked into a full symmetric matrix Z0 (svec_to_mat), completed to Z1, and Z1 is
+        // packed back (mat_to_svec); entries beyond the packed triangle are not touched
+        exists|Z0: MatrixF, Z1: MatrixF| {
+            &&& Z0.size == (pattern.ordering@.len() as usize, pattern.ordering@.len() as usize) && Z1.size == Z0.size
+            &&& (forall|a: int, b: int| Z0.inb(a, b) ==> #[trigger] Z0.e(a, b) == sv_val(old(z)@, a, b))
+            &&& psd_completed(Z0, Z1, *pattern)
+            &&& (forall|a: int, b: int| #[trigger] tslot(a, b) && 0 <= a <= b < pattern.ordering@.len() ==> final(z)@[tri(b) + a] == ms_val(Z1, a, b)) },
+        forall|k: int| tri(pattern.ordering@.len() as int) <= k < old(z)@.len() ==> #[trigger] final(z)@[k] == old(z)@[k],
+//@pre
+    proof { assert(pattern.ordering@.len() * pattern.ordering@.len() <= usize::MAX) by(nonlinear_arith) requires pattern.ordering@.len() < 0x1_0000_0000; }
+//@after "svec_to_mat(&mut Z, z);"
+    let ghost gz0 = Z;
+//@after "psd_complete(&mut Z, pattern);"
+    let ghost gz1 = Z;
+//@end
 
 // ------------------------------------------------------------------ the two round trips, F-real.  Hypotheses: the postconditions of mat_to_svec and
 // svec_to_mat (proved above) and  2 * (1/sqrt 2)^2 == 1  in the real model, which is NOT among the admitted axioms: it is a hypothesis of the lemmas
